@@ -10,7 +10,14 @@ VARIABLE l
 
 Tr == ndJsonDeserialize(IOEnv.TRACE)
 
-IMP_SLACK == 12          \* outputs: calibrated (largest seen 3 over the thorough tier; R3: >= 2x margin)
+IMP_SLACK == 12          \* outputs: calibrated (largest seen 5, at 8 -> 48 kHz, over all pairs x 3 chunkings x 60+ positions; R3: >= 2x)
+\* what the delay matrices are for: the delay of the impulse-response peak (inputDelay + filter delay) is equalised per
+\* internal rate.  Centres in microseconds measured over all pairs (spread <= +-65 us incl. the sub-sample position of the
+\* impulse); tolerance 250 us (R3: > 2x the spread)
+DelayCentre(R) == IF R.enc THEN (IF R.kout = 8 THEN 750 ELSE IF R.kout = 12 THEN 600 ELSE 640)
+                  ELSE (IF R.kin = 8 THEN 560 ELSE IF R.kin = 12 THEN 750 ELSE 740)
+DELAY_TOL == 250
+PeakDelayUs(R, e) == (e.peak * 1000) \div R.kout - (e.i * 1000) \div R.kin
 
 StOf(R) == <<R.kin, R.kout, R.delay, R.batch, R.inv, R.fn, R.coefs, R.fracs, R.order>>
 B(x) == IF x THEN 1 ELSE 0
@@ -52,6 +59,8 @@ Clauses(e) ==
     LET R == R0(e) IN
     << <<"drift", "G14.count", e.n = e.ms * R.kout>>,
        <<"drift", "G14.causal", (e.first >= 0 /\ e.i >= 0 /\ e.i < e.ms * R.kin) => e.first >= FirstDep(R, e.i)>>,
+       <<"drift", "G14.groupdelay", (e.i >= 0 /\ e.i < (e.ms - 3) * R.kin /\ e.peak >= 0) =>
+            (PeakDelayUs(R, e) >= DelayCentre(R) - DELAY_TOL /\ PeakDelayUs(R, e) <= DelayCentre(R) + DELAY_TOL)>>,
        <<"drift", "G14.firstdep", (e.i >= 0 /\ e.i < (e.ms - 2) * R.kin) => (e.first >= 0 /\ e.first <= FirstDep(R, e.i) + IMP_SLACK)>> >>
   ELSE IF e.k = "dec" THEN
     IF e.toc < 0 THEN << <<"prop", "C02.encode", FALSE>> >>
@@ -67,11 +76,21 @@ Clauses(e) ==
             LET fms == IF TocCfg(e.toc) < 12 /\ TocCfg(e.toc) % 4 = 0 THEN 10 ELSE IF TocCfg(e.toc) >= 12 /\ TocCfg(e.toc) % 2 = 0 THEN 10 ELSE 20
                 n == fms * R.kin IN
             CallPre(R, n) /\ CallSafe(R, n) /\ CallRec(R, n).hw = DecOut(R.kin, e.dapi, fms)>> >>
+  ELSE IF e.k = "insitu" THEN
+    LET int == TocIntFs(e.toc)
+        sh == InSituShift(int, e.dapi)
+        In(x, q) == \E i \in 1..Len(q) : q[i] = x IN
+    << <<"drift", "G14.insitu.setup", e.toc >= 0 /\ (e.tocsame = 1 => (e.intfs = int /\ e.nz > 0 /\ e.na * (int \div 1000) = e.nb * (e.dapi \div 1000)))>>,
+       <<"drift", "G14.insitu.values", (e.toc >= 0 /\ e.tocsame = 1) => (In(sh, e.sh0) /\ (e.ch = 2 => In(sh, e.sh1)))>> >>
   ELSE IF e.k = "enc" THEN
     << <<"prop", "C02.encode", e.len >= 1>>,
        <<"drift", "G14.encstate", (e.fsk \in {8, 12, 16} /\ e.apif = e.api) /\ e.st = StOf(InitRec(e.apif, e.fsk * 1000, TRUE))>>,
        <<"drift", "G14.encstate1", ("st1" \in DOMAIN e /\ e.st1[1] # 0) => e.st1 = StOf(InitRec(e.apif, e.fsk1 * 1000, TRUE))>> >>
   ELSE << <<"drift", "G14.unknown", FALSE>> >>
+
+\* the TOC arithmetic used above is OpusConst's (the framework's shared reading of RFC 6716 section 3.1): checked once
+OC == INSTANCE OpusConst
+ASSUME \A t \in 0..255 : \A fs \in Rates5 : TocSpf(t, fs) = OC!SamplesPerFrame(t, fs)
 
 Judge == LET e == Tr[l]
              c == Clauses(e) IN
